@@ -66,6 +66,17 @@ CLAIMED = {
             "allocate are not driven. For void* readx/preadx a zero-size request at offset = length may throw "
             "(follows the code; the statement allows either).",
             "DESIGN.md 3.2"),
+    "C03": ("TLA+ definitions of byte-order layout, bswapN, ext24/48, sign_extend (spec/Endian): TLC checks the "
+            "involution / sign-replication laws and validates every recorded wrapper operation and helper call "
+            "(relational to the native operator, as the property states)",
+            "All 24 wrapper types x every assignment / compound-assignment / increment / decrement operator over "
+            "boundary-set^2 operand pairs incl. operands of wider and floating types, exhaustive 16-bit batches, "
+            "exhaustive 8/16-bit helpers, stratified 3k-200k samples per 24/32/48/64-bit helper; TLC checks sizeof, "
+            "stored bytes = named-order layout of the native result, returned value = native operator's value, and "
+            "helper results = definition.",
+            "Trusted: TLC; the native reference value comes from the same C++ operator applied to a plain T in the "
+            "harness. Not exhaustive above 16 bits. Little-endian host only.",
+            "DESIGN.md 3.3"),
 }
 
 NOT_YET = "check not built yet in this round (planned: see DESIGN.md section 3)"
